@@ -349,11 +349,15 @@ def _get_cvar_weights_from_percentile(
         return weights
 
     p_max = 1.0 / indices.size
-    n_var = int(percentile * indices.size)
-    p_var = percentile - n_var * p_max
+    # The mass of the last, fractional, realization follows from the fractional
+    # part of percentile * n. Subtracting n_var rounded fractions 1 / n from the
+    # percentile instead would leave rounding noise of either sign when
+    # percentile * n is an integer:
+    mass = percentile * indices.size
+    n_var = int(mass)
+    p_var = (mass - n_var) * p_max
 
     weights[indices[:n_var]] = p_max
-    # Due to rounding p_var may become slightly negative, skip it then:
     if n_var < indices.size and p_var > 0:
         weights[indices[n_var]] = p_var
     return weights
